@@ -5,6 +5,7 @@ import (
 	"go/constant"
 	"go/token"
 	"go/types"
+	"os"
 	"runtime"
 	"sort"
 	"strings"
@@ -43,6 +44,13 @@ type alt struct {
 	label string
 }
 
+// task: one path to explore, identified by its decision prefix; unchecked records that the path
+// condition at the end of the prefix has not been confirmed satisfiable by a query.
+type task struct {
+	prefix    []int
+	unchecked bool
+}
+
 type decision struct {
 	idx   int
 	n     int
@@ -67,6 +75,8 @@ type Config struct {
 	MaxViolations int
 	Verbose    bool
 	SolverLog  string
+	// OrderInsensitive: functions whose map ranges are explored in insertion order only (see orderLemma)
+	OrderInsensitive map[string]bool
 }
 
 // Violation describes a failed obligation with its concretised counterexample.
@@ -94,6 +104,7 @@ type Stats struct {
 	Notes            map[string]int64
 	Samples          []*Cex
 	MaxTrail         int
+	Labels           map[string]int64
 }
 
 type Result struct {
@@ -107,7 +118,7 @@ type Result struct {
 type Engine struct {
 	cfg   Config
 	mu    sync.Mutex
-	queue [][]int
+	queue []task
 	busy  int
 	cond  *sync.Cond
 	res   Result
@@ -143,7 +154,7 @@ func Run(cfg Config) *Result {
 	e.res.Stats.Bounds = map[string]string{}
 	e.res.Stats.Models = map[string]bool{}
 	e.res.Stats.Notes = map[string]int64{}
-	e.queue = [][]int{nil}
+	e.queue = []task{{}}
 	for _, l := range expectedReach(cfg.Prog, cfg.Entry) {
 		e.res.Stats.Reach[l] = 0
 	}
@@ -168,6 +179,14 @@ func (e *Engine) worker(id int) {
 		return
 	}
 	defer solver.Close()
+	if e.cfg.SolverLog != "" && id == 0 {
+		if f, err := os.Create(e.cfg.SolverLog); err == nil {
+			solver.Log = f
+			defer f.Close()
+		}
+	}
+	var prev []int
+	levels := 0
 	for {
 		e.mu.Lock()
 		for len(e.queue) == 0 && e.busy > 0 && !e.stop {
@@ -179,13 +198,43 @@ func (e *Engine) worker(id int) {
 			return
 		}
 		// LIFO: depth-first flavour keeps the queue small
-		prefix := e.queue[len(e.queue)-1]
+		tk := e.queue[len(e.queue)-1]
 		e.queue = e.queue[:len(e.queue)-1]
 		e.busy++
 		e.mu.Unlock()
 
-		ex := newExec(e, solver, prefix)
+		ex := newExec(e, solver, tk.prefix)
+		ex.prefixUnchecked = tk.unchecked
+		// incremental solver reuse: keep the assertion levels shared with the previous path of this worker
+		n := len(prev)
+		if n == 0 {
+			solver.Reset()
+			levels = 0
+			ex.shared = -1
+		} else {
+			L := 0
+			for L < len(tk.prefix) && L < n && tk.prefix[L] == prev[L] {
+				L++
+			}
+			if L > n-1 {
+				L = n - 1
+			}
+			for levels > L {
+				solver.Pop()
+				levels--
+			}
+			ex.shared = L
+			ex.mute = true
+		}
 		ex.runPath()
+		prev = prev[:0]
+		for _, d := range ex.trail {
+			prev = append(prev, d.idx)
+		}
+		levels = len(ex.trail)
+		if ex.outcome == "engine-error" || ex.solverDirty {
+			prev = nil
+		}
 
 		e.mu.Lock()
 		e.busy--
@@ -213,10 +262,10 @@ func (e *Engine) fail(msg string) {
 	e.cond.Broadcast()
 }
 
-func (e *Engine) enqueue(prefix []int) {
+func (e *Engine) enqueue(prefix []int, unchecked bool) {
 	cp := append([]int(nil), prefix...)
 	e.mu.Lock()
-	e.queue = append(e.queue, cp)
+	e.queue = append(e.queue, task{cp, unchecked})
 	e.mu.Unlock()
 	e.cond.Signal()
 }
@@ -231,6 +280,13 @@ func (e *Engine) merge(ex *Exec) {
 		st.Infeasible++
 	}
 	st.Decisions += int64(len(ex.trail))
+	// new decisions of this path (beyond the replayed prefix) by label
+	for i := len(ex.prefix); i < len(ex.trail); i++ {
+		if st.Labels == nil {
+			st.Labels = map[string]int64{}
+		}
+		st.Labels[ex.trail[i].label]++
+	}
 	if len(ex.trail) > st.MaxTrail {
 		st.MaxTrail = len(ex.trail)
 	}
@@ -298,6 +354,15 @@ type Exec struct {
 	trail  []decision
 	pcSet  map[string]bool
 	pc     []*smt.Term
+	symSet  map[string]bool // declared symbols
+	symUsed map[string]bool // symbols mentioned by a branch/assume/assert condition in the PC
+	unchecked bool          // the PC contains conjuncts added without a feasibility check
+	prefixUnchecked bool
+	// solver reuse: decisions [0,shared) and everything sent before decision `shared` are already on the
+	// solver's assertion stack; mute suppresses re-sending them during replay. shared<0: fresh solver.
+	shared      int
+	mute        bool
+	solverDirty bool
 
 	syms    []symInfo
 	nextSym int
@@ -325,6 +390,7 @@ type Exec struct {
 	// write monitor
 	writes []writeRec
 	mapOrderInsertion bool
+	noOrderLemma      bool
 	logs   []Value
 
 	sched *scheduler
@@ -345,14 +411,23 @@ type writeRec struct {
 func newExec(e *Engine, solver *smt.Solver, prefix []int) *Exec {
 	return &Exec{
 		eng: e, cfg: &e.cfg, prog: e.cfg.Prog, solver: solver, prefix: prefix,
-		pcSet: map[string]bool{}, globals: map[*ssa.Global]*Cell{}, inited: map[*ssa.Package]bool{},
+		pcSet: map[string]bool{}, symSet: map[string]bool{}, symUsed: map[string]bool{}, globals: map[*ssa.Global]*Cell{}, inited: map[*ssa.Package]bool{},
 		reach: map[string]*Cex{}, funcs: map[*ssa.Function]int64{}, bounds: map[string]string{},
 		models: map[string]bool{}, notes: map[string]int64{},
 	}
 }
 
+// level opens a new assertion level for the decision about to be recorded.
+func (ex *Exec) level() {
+	pos := len(ex.trail)
+	if ex.shared >= 0 && pos < ex.shared {
+		return
+	}
+	ex.mute = false
+	ex.solver.Push()
+}
+
 func (ex *Exec) runPath() {
-	ex.solver.Reset()
 	ex.outcome = "done"
 	defer func() {
 		if r := recover(); r != nil {
@@ -364,6 +439,10 @@ func (ex *Exec) runPath() {
 				ex.outcome = "engine-error"
 			case goPanic:
 				// an interpreted panic escaped the harness entry: the harness did not guard it
+				if ex.unchecked && ex.pcInfeasible() {
+					ex.outcome = "infeasible"
+					break
+				}
 				ex.engineErr = "uncaught panic in harness: " + x.msg + ex.where()
 				ex.outcome = "engine-error"
 			default:
@@ -407,7 +486,10 @@ func (ex *Exec) fresh(prefix string, sort smt.Sort) *smt.Term {
 	name := fmt.Sprintf("%s_%d", sanitize(prefix), ex.nextSym)
 	ex.nextSym++
 	ex.syms = append(ex.syms, symInfo{name, sort})
-	ex.solver.Declare(name, sort)
+	ex.symSet[name] = true
+	if !ex.mute {
+		ex.solver.Declare(name, sort)
+	}
 	return smt.Var(name, sort)
 }
 
@@ -426,15 +508,7 @@ func sanitize(s string) string {
 	return b.String()
 }
 
-// freshString creates a symbolic string with the global side conditions (length bound, printable ASCII).
-func (ex *Exec) freshString(prefix string) *smt.Term {
-	t := ex.fresh(prefix, smt.Str)
-	ex.addPC(&smt.Term{S: fmt.Sprintf("(<= (str.len %s) %d)", t.S, ex.cfg.StrMax), Sort: smt.Bool})
-	ex.addPC(&smt.Term{S: fmt.Sprintf(`(str.in_re %s (re.* (re.range " " "~")))`, t.S), Sort: smt.Bool})
-	return t
-}
-
-// addPC asserts t without a feasibility check.
+// addPC asserts t without a feasibility check and marks its symbols as constrained.
 func (ex *Exec) addPC(t *smt.Term) {
 	if t == nil || t.S == "true" {
 		return
@@ -442,9 +516,64 @@ func (ex *Exec) addPC(t *smt.Term) {
 	if ex.pcSet[t.S] {
 		return
 	}
+	ex.markUsed(t)
 	ex.pcSet[t.S] = true
 	ex.pc = append(ex.pc, t)
-	ex.solver.Assert(t)
+	if !ex.mute {
+		ex.solver.Assert(t)
+	}
+}
+
+// addSide asserts a domain side condition of fresh symbols (does not count as "constrained").
+func (ex *Exec) addSide(t *smt.Term) {
+	if t == nil || t.S == "true" || ex.pcSet[t.S] {
+		return
+	}
+	ex.pcSet[t.S] = true
+	ex.pc = append(ex.pc, t)
+	if !ex.mute {
+		ex.solver.Assert(t)
+	}
+}
+
+func (ex *Exec) symbolsOf(t *smt.Term) []string {
+	var res []string
+	s := t.S
+	i := 0
+	for i < len(s) {
+		c := s[i]
+		if (c >= 'a' && c <= 'z') || (c >= 'A' && c <= 'Z') || c == '_' {
+			j := i
+			for j < len(s) && s[j] != ' ' && s[j] != ')' && s[j] != '(' {
+				j++
+			}
+			if ex.symSet[s[i:j]] {
+				res = append(res, s[i:j])
+			}
+			i = j
+		} else {
+			i++
+		}
+	}
+	return res
+}
+
+func (ex *Exec) markUsed(t *smt.Term) {
+	for _, n := range ex.symbolsOf(t) {
+		ex.symUsed[n] = true
+	}
+}
+
+// hasFreshSymbol: t mentions a symbol no earlier condition has constrained; such a comparison is
+// (almost always) satisfiable both ways, so the feasibility query is skipped.  Skipping is sound: an
+// infeasible path can only yield unsat obligations, and witnesses/violations always re-check the PC.
+func (ex *Exec) hasFreshSymbol(t *smt.Term) bool {
+	for _, n := range ex.symbolsOf(t) {
+		if !ex.symUsed[n] {
+			return true
+		}
+	}
+	return false
 }
 
 func (ex *Exec) check() smt.Result {
@@ -456,6 +585,15 @@ func (ex *Exec) check() smt.Result {
 		panic(engineErr("solver answered unknown"))
 	}
 	return r
+}
+
+func (ex *Exec) pcInfeasible() (res bool) {
+	defer func() {
+		if r := recover(); r != nil {
+			res = false
+		}
+	}()
+	return ex.check() == smt.Unsat
 }
 
 // feasible reports whether PC ∧ t is satisfiable.
@@ -472,10 +610,12 @@ func (ex *Exec) feasible(t *smt.Term) bool {
 	if ex.pcSet[smt.Not(t).S] {
 		return false
 	}
+	ex.solverDirty = true
 	ex.solver.Push()
 	ex.solver.Assert(t)
 	r := ex.check()
 	ex.solver.Pop()
+	ex.solverDirty = false
 	return r == smt.Sat
 }
 
@@ -487,8 +627,12 @@ func (ex *Exec) choose(label string, alts []alt) int {
 		if idx >= len(alts) {
 			panic(engineErr("replay mismatch at decision %d (%s): idx %d of %d", pos, label, idx, len(alts)))
 		}
+		ex.level()
 		ex.trail = append(ex.trail, decision{idx, len(alts), label})
 		ex.addPC(alts[idx].cond)
+		if len(ex.trail) == len(ex.prefix) {
+			ex.unchecked = ex.prefixUnchecked
+		}
 		return idx
 	}
 	var feas []int
@@ -505,12 +649,80 @@ func (ex *Exec) choose(label string, alts []alt) int {
 		cur[i] = d.idx
 	}
 	for _, i := range feas[1:] {
-		ex.eng.enqueue(append(cur, i))
+		// a conditional alternative was confirmed by a query; an unconditional one inherits the state
+		ex.eng.enqueue(append(cur, i), alts[i].cond == nil && ex.unchecked)
 	}
 	idx := feas[0]
+	ex.level()
 	ex.trail = append(ex.trail, decision{idx, len(alts), label})
+	if alts[idx].cond != nil {
+		ex.unchecked = false
+	}
 	ex.addPC(alts[idx].cond)
 	return idx
+}
+
+// choose2 is the two-way branch on condition c with cheaper feasibility handling.
+func (ex *Exec) choose2(label string, c *smt.Term) bool {
+	pos := len(ex.trail)
+	nc := smt.Not(c)
+	if pos < len(ex.prefix) {
+		idx := ex.prefix[pos]
+		ex.level()
+		ex.trail = append(ex.trail, decision{idx, 2, label})
+		if idx == 0 {
+			ex.addPC(c)
+		} else {
+			ex.addPC(nc)
+		}
+		if len(ex.trail) == len(ex.prefix) {
+			ex.unchecked = ex.prefixUnchecked
+		}
+		return idx == 0
+	}
+	var f0, f1 bool
+	skipped := false
+	if ex.hasFreshSymbol(c) {
+		f0, f1 = true, true
+		skipped = true
+		ex.notes["feasibility-skipped-fresh-symbol"]++
+	} else {
+		f0 = ex.feasible(c)
+		if !f0 && !ex.unchecked {
+			f1 = true // the PC is known satisfiable, so the other side is
+		} else {
+			f1 = ex.feasible(nc)
+		}
+		if !f0 && !f1 {
+			panic(pathEnd{"infeasible"})
+		}
+	}
+	cur := make([]int, len(ex.trail), len(ex.trail)+1)
+	for i, d := range ex.trail {
+		cur[i] = d.idx
+	}
+	switch {
+	case f0 && f1:
+		ex.eng.enqueue(append(cur, 1), skipped)
+		ex.level()
+		ex.trail = append(ex.trail, decision{0, 2, label})
+		ex.unchecked = skipped
+		ex.addPC(c)
+		return true
+	case f0:
+		ex.level()
+		ex.trail = append(ex.trail, decision{0, 2, label})
+		ex.unchecked = false
+		ex.addPC(c)
+		return true
+	default:
+		ex.level()
+		ex.trail = append(ex.trail, decision{1, 2, label})
+		// f1 was either confirmed by a query or inferred from a satisfiable PC
+		ex.unchecked = false
+		ex.addPC(nc)
+		return false
+	}
 }
 
 // chooseN is an unconditional n-way choice.
@@ -540,7 +752,7 @@ func (ex *Exec) branch(label string, c Value) bool {
 		if ex.pcSet[smt.Not(x).S] {
 			return false
 		}
-		return ex.choose(label, []alt{{cond: x}, {cond: smt.Not(x)}}) == 0
+		return ex.choose2(label, x)
 	}
 	panic(engineErr("branch on %T", c))
 }
@@ -564,8 +776,12 @@ func (ex *Exec) assume(c Value) {
 
 // model returns model values for all symbols (the current assertion stack must be satisfiable).
 func (ex *Exec) model(extra *smt.Term) (map[string]string, bool) {
+	ex.solverDirty = true
 	ex.solver.Push()
-	defer ex.solver.Pop()
+	defer func() {
+		ex.solver.Pop()
+		ex.solverDirty = false
+	}()
 	if extra != nil {
 		ex.solver.Assert(extra)
 	}
